@@ -140,6 +140,7 @@ def run(
             "java",
             "-XX:+UseParallelGC",
             "-Xmx" + heap,
+            "-Xss128m",
         ]
         if depth_first:
             cmd.append("-Dtlc2.tool.queue.IStateQueue=StateDeque")
